@@ -457,8 +457,10 @@ class MProcess(QOperation):
 
         new_hss = []
         for hs in hss:
-            hs[0] -= vec / len(hss)
-            new_hss.append(hs)
+            # hs can be a view of var, so it is copied before it is updated.
+            new_hs = hs.copy()
+            new_hs[0] -= vec / len(hss)
+            new_hss.append(new_hs)
 
         # hss to var
         new_var = convert_hss_to_var(c_sys, new_hss, on_para_eq_constraint)
